@@ -55,8 +55,11 @@ class MultiValueTracker(Tracker):
         tracked_values: dict = self.get()
         if len(self._tracked_keys) <= 1:
             return tracked_values
+        values_sum = sum(tracked_values.values())
+        if values_sum == 0:  # NumPy scalars do not raise a ZeroDivisionError but yield NaN / inf
+            return {key: 0. for key in tracked_values.keys()}
         try:
-            tracked_values = {key: value / sum(tracked_values.values()) for key, value in tracked_values.items()}
+            tracked_values = {key: value / values_sum for key, value in tracked_values.items()}
         except ZeroDivisionError:
             tracked_values = {key: 0. for key in tracked_values.keys()}
         return tracked_values
